@@ -8,7 +8,10 @@ use text2num::replace_numbers_in_text;
 /// morphemes of the standard spelling of n, normalised (lowercase, plural/flexion marks and the
 /// conjunction removed) so that two renderings of the same words compare equal
 fn norm_morphs(l: L, n: u64) -> Vec<String> {
-    spell::morphs(l, n, Var::default())
+    norm_morphs_v(l, n, Var::default())
+}
+fn norm_morphs_v(l: L, n: u64, v: Var) -> Vec<String> {
+    spell::morphs(l, n, v)
         .into_iter()
         .map(|m| m.to_lowercase())
         .filter(|m| m != l.conj() && !(l == L::Nl && m == "ën"))
@@ -17,6 +20,7 @@ fn norm_morphs(l: L, n: u64) -> Vec<String> {
             (L::Fr, "cents") => "cent".to_string(),
             (L::De, "eins") => "ein".to_string(),
             (L::It, "tré") => "tre".to_string(),
+            (L::Nl, "één") => "een".to_string(),
             _ => m,
         })
         .collect()
@@ -98,6 +102,52 @@ pub fn run(tier: Tier) -> i32 {
                                 expected: allowed.join(" | "),
                                 observed: got,
                             });
+                        }
+                    }
+                }
+            }
+            // the same pairs in each accepted orthographic variant (aliases, regional forms, split words...)
+            for (vname, v) in spell::axes(l).into_iter().skip(1) {
+                if l == L::Fr && v.hyph == 1 {
+                    // 'quatre vingt' written apart makes the segmentation into two numbers ambiguous
+                    // ('vingt quatre vingts' is also 24 followed by 20)
+                    continue;
+                }
+                let spv: Vec<String> = (0..100).map(|n| spell::spell(l, n, v)).collect();
+                let nmv: Vec<Vec<String>> = (0..100).map(|n| norm_morphs_v(l, n, v)).collect();
+                let all_nmv: Vec<(u64, Vec<String>)> = (0..10_000).map(|n| (n, norm_morphs_v(l, n, v))).collect();
+                for a in lo..hi {
+                    for b in 0..100u64 {
+                        if spv[a as usize] == sp[a as usize] && spv[b as usize] == sp[b as usize] {
+                            continue;
+                        }
+                        for joiner in [" ".to_string(), format!(" {} ", l.conj())] {
+                            acc.states += 1;
+                            acc.traces += 1;
+                            let s = format!("{}{}{}", spv[a as usize], joiner, spv[b as usize]);
+                            let got = guard(|| replace_numbers_in_text(&s, &lang, 0.0)).unwrap_or_else(|p| p);
+                            let mut allowed: Vec<String> = vec![format!("{a}{joiner}{b}")];
+                            let mut cat = nmv[a as usize].clone();
+                            cat.extend(nmv[b as usize].iter().cloned());
+                            for (c, m) in all_nmv.iter().chain(all_nm.iter()) {
+                                if *m == cat && !allowed.contains(&c.to_string()) {
+                                    allowed.push(c.to_string());
+                                }
+                            }
+                            if a == 0 && joiner == " " {
+                                allowed.push(format!("0{b}"));
+                            }
+                            if !allowed.contains(&got) {
+                                ctx.report(acc, Violation {
+                                    lang: l.code().into(),
+                                    entry: "replace_text".into(),
+                                    input: s,
+                                    threshold: Some(0.0),
+                                    clause: format!("two complete numbers below 100 (variant: {vname}): both numbers in order, or the single number spelled by exactly those words"),
+                                    expected: allowed.join(" | "),
+                                    observed: got,
+                                });
+                            }
                         }
                     }
                 }
